@@ -1,0 +1,14 @@
+//go:build verif
+
+package datastore
+
+// VerifSyncMsgDone, when set, is called with the datastore name each time the
+// processing of one sync notification (storeSyncMsg) has finished, so that a
+// harness knows when all in-flight notification writers are done.
+var VerifSyncMsgDone func(datastore string)
+
+func (d *Datastore) verifSyncMsgDone() {
+	if f := VerifSyncMsgDone; f != nil {
+		f(d.Name())
+	}
+}
